@@ -46,6 +46,10 @@ var c09Jobs = []c09Item{
 	{name: "victim", text: "  victim:\n    runs-on: ubuntu-latest\n    env:\n      V: ${{ matrix.target }}\n    steps:\n      - run: echo ${{ matrix.target }} ${{ matrix.os }} ${{ steps.s.outputs.v }} ${{ needs.outjob.outputs.o1 }} ${{ env.V }}\n      - run: echo\n"},
 	{name: "callerneeds", deps: []string{"outjob"}, text: "  callerneeds:\n    needs: [outjob]\n    uses: owner/repo/.github/workflows/w.yml@v1\n    with:\n      a: ${{ needs.outjob.outputs.o1 }} ${{ needs.outjob.outputs.nope }}\n"},
 	{name: "services", text: "  services:\n    runs-on: ubuntu-latest\n    services:\n      db:\n        image: pg\n    steps:\n      - id: s\n        run: echo ${{ job.services.db.id }} ${{ job.services.nope.id }}\n"},
+	{name: "selfhosted", text: "  selfhosted:\n    runs-on: self-hosted\n    steps:\n      - run: echo\n        shell: sh\n      - run: echo\n        shell: cmd\n      - run: echo\n        shell: powershell\n      - run: echo\n        shell: nosuchshell\n"},
+	{name: "exprrunner", text: "  exprrunner:\n    runs-on: ${{ vars.RUNNER }}\n    defaults:\n      run:\n        shell: sh\n    steps:\n      - run: echo\n      - run: echo\n        shell: cmd\n"},
+	{name: "macrunner", text: "  macrunner:\n    runs-on: macos-latest\n    steps:\n      - run: echo\n        shell: cmd\n      - run: echo\n        shell: sh\n"},
+	{name: "grouprunner", text: "  grouprunner:\n    runs-on:\n      group: mygroup\n    steps:\n      - run: echo\n        shell: powershell\n      - run: echo\n        shell: bash\n"},
 	{name: "creds", text: "  creds:\n    runs-on: ubuntu-latest\n    container:\n      image: x\n      credentials:\n        username: u\n        password: plain\n    env:\n      'bad name': 1\n    permissions:\n      nosuchscope: read\n    steps:\n      - run: echo '::set-output name=a::b'\n        if: ${{ true }} && false\n"},
 }
 
@@ -202,7 +206,7 @@ func TestVerifC09(t *testing.T) {
 	r.Bounds["step_sequence_length"] = stepLen
 	r.Bounds["expression_sequence_length"] = exprLen
 	r.Bounds["jobs"], r.Bounds["steps"], r.Bounds["expressions"] = len(c09Jobs), len(c09Steps), len(c09Exprs)
-	r.Extra["rule"] = "libraries of 19 jobs, 13 steps and 21 expression strings that write rule state (matrix with .*, shell defaults, runner platform, conflicting labels, duplicate ids, needs, outputs, erroneous items); every sequence without repetition up to the length bound in file order; each item's diagnostics (relative positions) compared with the item alone plus its declared dependencies (needed jobs / earlier id-carrying steps); a slice of job pairs under every single map-order deviation. class = (family, item, has diagnostics); non-trivial = the item has diagnostics"
+	r.Extra["rule"] = "libraries of 23 jobs, 13 steps and 21 expression strings that write rule state (matrix with .*, shell defaults, runner platform, conflicting labels, duplicate ids, needs, outputs, erroneous items); every sequence without repetition up to the length bound in file order; each item's diagnostics (relative positions) compared with the item alone plus its declared dependencies (needed jobs / earlier id-carrying steps); a slice of job pairs under every single map-order deviation. class = (family, item, has diagnostics); non-trivial = the item has diagnostics"
 	r.Extra["assumptions"] = []string{"dependencies of a step are the earlier steps that carry an id (verbatim), of a job its needed jobs; everything else counts as unrelated", "line numbers echoed in messages are compared relative to the item"}
 	families := []*c09Family{
 		{name: "jobs", header: "on: pull_request\njobs:\n", items: c09Jobs},
